@@ -224,7 +224,11 @@ def escape_grid(full):
     tails += ['\n', '\t', '\x00', 'é', ' ', '\U0001d4b3']
     hexish = ['', '0', '4', '41', 'g', 'zz', '4g', '00e9', '00E', '12', 'd800',
               'DFFF', 'ffff', '0001d4b3', '00110000', 'FFFFFFFF', '0010FFFF',
-              '0000004', 'éé', '１２', '+1', ' 1', '-1']
+              '0000004', 'éé', '１２', '+1', ' 1', '-1',
+              # lone surrogates (Python strings can hold them) among the
+              # characters the escape takes
+              '\ud800', '4\ud800', '\udfff041', '00\ud800\udc00',
+              '0001\ud800b3']
     for p in 'xuU':
         for h in hexish:
             tails.append(p + h)
